@@ -82,6 +82,13 @@ func (x *exec) ev(e Expr, env *Env, hint types.Type) *Val {
 				fail("spec: bad char literal %q", n.Val)
 			}
 			return x.mkVal(x.c.IntLit(big.NewInt(int64(r[0])), bits), t)
+		case "float":
+			f, _, err := big.ParseFloat(n.Val, 10, 53, big.ToNearestEven)
+			if err != nil {
+				fail("spec: bad float literal %q", n.Val)
+			}
+			fv, _ := f.Float64()
+			return x.mkVal(fpLit(fv), types.Typ[types.Float64])
 		case "int":
 			v, ok := new(big.Int).SetString(n.Val, 0)
 			if !ok {
@@ -812,6 +819,11 @@ func (x *exec) callPure(m *types.Func, recv *Val, args []Expr, env *Env) *Val {
 	sig := m.Type().(*types.Signature)
 	key := funcKey(m)
 	switch key {
+	case "math.Floor", "math.Ceil", "math.Trunc":
+		// the same rounding the executor gives these library calls
+		mm := map[string]string{"math.Floor": "RTN", "math.Ceil": "RTP", "math.Trunc": "RTZ"}
+		v := x.ev(args[0], env, types.Typ[types.Float64])
+		return x.mkVal(fmt.Sprintf("(fp.roundToIntegral %s %s)", mm[key], x.term(v)), types.Typ[types.Float64])
 	case "math.Pow", "math.Log", "math.Exp", "math.Log2", "math.Log10":
 		// the same uninterpreted function the executor uses for these library calls
 		fn := "uf!" + key
